@@ -189,7 +189,7 @@ func runC18(c *ev.Ctx) {
 	if c.Thorough() {
 		maxLen = 6
 	}
-	c.Rule(fmt.Sprintf("Sum/Prod/Min/Max/Avg: every list of length 0..%d over 7 ints {MinInt,-3,-1,0,1,2,MaxInt} and 6 dyadic floats {-2.5,-0.5,0,0.5,1.5,3}; IntSum/IntProd/IntMin/IntMax: every list of length 0..%d over the same ints interleaved with {\"s\",nil,true,1.5,a list}; each through 3 construction histories (plain, spare capacity, equal elements sharing one field object). Oracle: exact rational folds (math/big), exact equality whenever the exact result is representable, the (n-1)-ulp summation bound only when MaxInt/MinInt take part. Non-trivial = distinct list of length >= 2.", maxLen, maxLen))
+	c.Rule(fmt.Sprintf("Sum/Prod/Min/Max/Avg: every list of length 0..%d over 7 ints {MinInt,-3,-1,0,1,2,MaxInt} and 6 dyadic floats {-2.5,-0.5,0,0.5,1.5,3}; IntSum/IntProd/IntMin/IntMax: every list of length 0..%d over the same ints interleaved with {\"s\",nil,true,1.5,a list}; each through 3 construction histories (plain, spare capacity, equal elements sharing one field object). Min/Max additionally on every list of length 1..3 over 15 extreme magnitudes (+-MaxFloat64, +-1e300, around +-MaxFloat32, subnormals, MinInt, MaxInt). Oracle: exact rational folds (math/big), exact equality whenever the exact result is representable, the (n-1)-ulp summation bound only when MaxInt/MinInt take part. Non-trivial = distinct list of length >= 2.", maxLen, maxLen))
 	c.Assume("Avg of the empty list is unspecified by the statement and not checked", "Go's float64 arithmetic is IEEE-754 round-to-nearest-even")
 	stop := func() bool { return c.Expired() || c.TooMany() }
 	total, offs := powSum(len(c18Num), 0, maxLen)
@@ -241,6 +241,40 @@ func runC18(c *ev.Ctx) {
 	})
 	if done < total2*3 {
 		c.Cut("int family cut by deadline")
+	}
+	// Min/Max over extreme magnitudes (every list of length 1..3): the start value of a fold must not win
+	{
+		ext := []interface{}{-math.MaxFloat64, -1e300, -2 * math.MaxFloat32, -1e39, -math.MaxFloat32, -5e-324, 5e-324, math.MaxFloat32, 1e39, 1e300, math.MaxFloat64, math.MinInt, math.MaxInt, -1.5, 0.0}
+		total, offs := powSum(len(ext), 1, 3)
+		for idx := int64(0); idx < total; idx++ {
+			n, rest := decodeLen(idx, 1, offs)
+			dg := digits(rest, len(ext), n, nil)
+			vals := make([]interface{}, n)
+			mn, mx := math.Inf(1), math.Inf(-1)
+			for i, d := range dg {
+				vals[i] = ext[d]
+				f, ok := ext[d].(float64)
+				if !ok {
+					f = float64(ext[d].(int))
+				}
+				mn, mx = math.Min(mn, f), math.Max(mx, f)
+			}
+			c.Eval(1)
+			c.Nontrivial("extremes/" + showSeq(vals))
+			l := at.NewList(vals...)
+			var gmn, gmx float64
+			pn, pv := try(func() { gmn, gmx = l.Min(), l.Max() })
+			if pn || gmn != mn || gmx != mx {
+				vals := vals
+				c.Violate(ev.Violation{Sig: "agg/extremes", Msg: fmt.Sprintf("Min/Max of %s = %v/%v (panic %v %v), want %v/%v", showSeq(vals), gmn, gmx, pn, pv, mn, mx), Witness: map[string]interface{}{"list": showSeq(vals)}}, func() string {
+					a, b := 0.0, 0.0
+					if p, _ := try(func() { l2 := at.NewList(vals...); a, b = l2.Min(), l2.Max() }); p || a != mn || b != mx {
+						return "agg/extremes"
+					}
+					return ""
+				})
+			}
+		}
 	}
 	if !c.Expired() {
 		d := 5
